@@ -20,6 +20,7 @@ type PropConfig struct {
 	Structural  []string `json:"structural"`
 	Assumptions []string `json:"assumptions"`
 	Bounded     []string `json:"bounded"`
+	Lemmas      []string `json:"lemmas"`
 }
 
 type Finding struct {
@@ -285,6 +286,35 @@ func cmdCheck(args []string) int {
 			rs.bySolver["ssa-scan"]++
 		} else {
 			rs.failures = append(rs.failures, &OblResult{Obl: &Obl{Name: name, Kind: "structural"}, Status: "failed", Raw: detail, Solver: "ssa-scan"})
+		}
+	}
+	// ghost lemmas (pure SMT files under /verif/lemmas): discharged when every solver that answers says unsat
+	for _, lf := range pc.Lemmas {
+		rs.required++
+		name := "lemma:" + lf
+		b, err := os.ReadFile(filepath.Join(root, lf))
+		st := "error"
+		solver := ""
+		raw := ""
+		if err == nil {
+			q := strings.ReplaceAll(string(b), "(check-sat)", "")
+			r := solve(wd, "lemma-"+filepath.Base(lf), q, e.timeout, false)
+			solver, raw = r.Solver, r.Raw
+			rs.solverTime += r.Seconds
+			if r.Status == "unsat" {
+				st = "discharged"
+			} else {
+				st = r.Status
+			}
+		} else {
+			raw = err.Error()
+		}
+		rs.obls = append(rs.obls, evObl{name, "lemma", st, solver, 0})
+		if st == "discharged" {
+			rs.discharged++
+			rs.bySolver[solver]++
+		} else {
+			rs.failures = append(rs.failures, &OblResult{Obl: &Obl{Name: name, Kind: "lemma"}, Status: st, Raw: raw, Solver: solver})
 		}
 	}
 	violations := 0
